@@ -1,6 +1,7 @@
 (* c20 model driver; case format: see harness/src/bin/c20.rs.
    answer: three predictions "R{..}|P{..}|O{..}" for the library outcomes read error / processing
-   error / success, each  exit;stdout;out;cyborg;log;stderr_diag;log_diag;recover;sym
+   error / success, each  exit;stdout;out;cyborg;log;stderr_diag;log_diag;recover;sym;diag_kind;known_b;known_d
+   (known_b / known_d: the run is in the exact class of the known finding F-C20b / F-C20d, C20/Known.v)
    sink = '-' absent | 0 empty | K the file the run found, untouched | renderer names joined by '+' ('!' = a failed write,
    'S' = bytes of the file the run found)
    sym  = '-' | <roots in the order the supplier receives them>/<URLs in that order>/<root the module's symbols come from | ->
@@ -19,7 +20,8 @@ let fmt_sink (l : z list) : string =
 let b2s b = if b then "1" else "0"
 let fmt_obs sym o =
   String.concat ";" [string_of_z (o_exit o); fmt_sink (o_stdout o); fmt_sink (o_out o); fmt_sink (o_cyborg o);
-                     fmt_sink (o_log o); b2s (o_stderr_diag o); b2s (o_log_diag o); b2s (o_recover o); sym; string_of_z (o_diag_kind o)]
+                     fmt_sink (o_log o); b2s (o_stderr_diag o); b2s (o_log_diag o); b2s (o_recover o); sym; string_of_z (o_diag_kind o);
+                     b2s (o_known_b o); b2s (o_known_d o)]
 (* the path exists before the run: x. (not the symlink loop xL, not the dangling symlink xK) and q. *)
 let pre (s : string) : bool =
   String.length s > 0 && (s.[0] = 'q' || (s.[0] = 'x' && s <> "xL" && s <> "xK"))
